@@ -1587,6 +1587,7 @@ func (n *node) processStreamStatus() bool {
 
 func (n *node) tick(tick uint64) error {
 	n.currentTick++
+	verifhook.Point(verifhook.NodeTick, n.shardID, n.replicaID)
 	n.qs.tick()
 	if n.qs.quiesced() {
 		if err := n.p.QuiescedTick(); err != nil {
